@@ -142,7 +142,7 @@ class Prop:
 
     # ------------------------------------------------------------------ Layer P
     def oblige(self, name, function, path, res, *, refute=None, pool=(), code=None, spec=None, hyps=(), strict=False,
-               symbols=None, tol_cmp=None, note=None, soft=False):
+               symbols=None, tol_cmp=None, note=None, soft=False, goal=None):
         """register the outcome `res` of a prove()/prove_eq() call for a named obligation and decide its verdict.
         refute(env) -> None | dict : runs the REAL function natively on a concrete candidate and judges the clause.
         code/spec: the two sides (z3 terms) for the term-comparison fallback; strict=True: no such fallback."""
@@ -255,6 +255,21 @@ class Prop:
             print(line, flush=True)
             rec['undecided'] = True
             return False
+        if goal is not None and (code is None or spec is None):
+            # a clause stated as a formula: numeric triage at points of the domain with the true functions
+            holds, info = self.formula_compare(goal, hyps, pool)
+            rec['formula_compare'] = info
+            if holds is False:
+                self.violation(name + '.' + path, dict(base, failing_input=None, clause_falsified_at=info['falsified_at'],
+                                                       reason='the clause is false at a point of its domain (true functions, 34 digits); no input of the real function found that exceeds the property tolerance'),
+                               no_input=True)
+                return False
+            kind = 'the clause holds at %d sampled points of its domain (true functions, 34 digits); the solver cannot derive it from the axiom list' % info['n'] if holds else 'the domain of the clause could not be sampled'
+            line = ('UNPROVED-IDENTITY' if holds else 'UNDECIDED') + ' property=%s obligation=%s path=%s (%s)' % (self.pid, name, path, kind)
+            self.lines.append(line)
+            print(line, flush=True)
+            rec['unproved_identity' if holds else 'undecided'] = True
+            return False
         if strict or code is None or spec is None:
             self.violation(name + '.' + path, dict(base, failing_input=None,
                                                    reason='obligation refuted / not discharged; clause has no numeric fallback (frame, wiring, index or inequality clause)'),
@@ -263,7 +278,13 @@ class Prop:
         # ---- term comparison (identity clauses only)
         worst, where = self.term_compare(code, spec, hyps, pool)
         rec['term_compare_worst'] = float(worst) if worst is not None else None
-        if worst is None or worst > (tol_cmp if tol_cmp is not None else mp.mpf(10) ** -30):
+        if worst is None:
+            line = 'UNDECIDED property=%s obligation=%s path=%s (not discharged; the domain of the clause could not be sampled for a numeric comparison of its two sides)' % (self.pid, name, path)
+            self.lines.append(line)
+            print(line, flush=True)
+            rec['undecided'] = True
+            return False
+        if worst > (tol_cmp if tol_cmp is not None else mp.mpf(10) ** -30):
             self.violation(name + '.' + path, dict(base, failing_input=None, largest_deviation=str(worst), at=where,
                                                    reason='code side and specification side of the clause differ as functions (50-digit evaluation); no input found that exceeds the property tolerance'),
                            no_input=True)
@@ -275,20 +296,83 @@ class Prop:
         rec['unproved_identity'] = True
         return False
 
-    def term_compare(self, code, spec, hyps, pool, n=24):
-        syms = E.free_symbols([code, spec] + list(hyps))
-        names = [k for k in syms if k != 'pi' and z3.is_real(syms[k])]
-        worst = mp.mpf(0)
-        where = {}
-        tried = 0
+    @staticmethod
+    def _bounds(hyps):
+        """simple interval literals of the hypotheses (sym <=/>= numeral): where to draw samples of the domain"""
+        lo, hi = {}, {}
+        for h in hyps:
+            try:
+                if not (z3.is_app(h) and h.num_args() == 2):
+                    continue
+                kd = h.decl().kind()
+                a, b = h.arg(0), h.arg(1)
+                if kd not in (z3.Z3_OP_LE, z3.Z3_OP_LT, z3.Z3_OP_GE, z3.Z3_OP_GT):
+                    continue
+                if z3.is_const(a) and a.decl().kind() == z3.Z3_OP_UNINTERPRETED and (z3.is_rational_value(b) or z3.is_int_value(b)):
+                    nm, v, upper = a.decl().name(), float(b.as_fraction()), kd in (z3.Z3_OP_LE, z3.Z3_OP_LT)
+                elif z3.is_const(b) and b.decl().kind() == z3.Z3_OP_UNINTERPRETED and (z3.is_rational_value(a) or z3.is_int_value(a)):
+                    nm, v, upper = b.decl().name(), float(a.as_fraction()), kd in (z3.Z3_OP_GE, z3.Z3_OP_GT)
+                else:
+                    continue
+                if upper:
+                    hi[nm] = min(hi.get(nm, v), v)
+                else:
+                    lo[nm] = max(lo.get(nm, v), v)
+            except Exception:
+                continue
+        return lo, hi
+
+    def _samples(self, terms, hyps, pool, n):
+        syms = E.free_symbols(list(terms) + list(hyps))
+        names = [k for k in syms if k != 'pi' and (z3.is_real(syms[k]) or z3.is_int(syms[k]))]
+        ints = {k for k in names if z3.is_int(syms[k]) or any(z3.is_app(h) and h.decl().kind() == z3.Z3_OP_IS_INT and k in E.free_symbols([h]) for h in hyps)}
+        lo, hi = self._bounds(hyps)
         rng = random.Random(12345)
         envs = [dict(w) for w in pool]
-        for _ in range(n * 6):
-            envs.append({k: rng.uniform(-2, 2) * rng.choice([1, 1, 10, 1e3]) for k in names})
+        for _ in range(n * 8):
+            e = {}
+            for k in names:
+                if k in lo and k in hi:
+                    v = rng.uniform(lo[k], hi[k]) if rng.random() < 0.85 else rng.choice([lo[k], hi[k], (lo[k] + hi[k]) / 2])
+                elif k in lo:
+                    v = lo[k] + abs(rng.uniform(0, 2)) * rng.choice([1, 10, 1e3])
+                elif k in hi:
+                    v = hi[k] - abs(rng.uniform(0, 2)) * rng.choice([1, 10, 1e3])
+                else:
+                    v = rng.uniform(-2, 2) * rng.choice([1, 1, 10, 1e3])
+                e[k] = float(round(v)) if k in ints else v
+            envs.append(e)
+        for e in envs:
+            for k in names:
+                e.setdefault(k, rng.uniform(-2, 2))
+        return names, envs
+
+    def formula_compare(self, goal, hyps, pool, n=24):
+        """numeric triage of an undischarged clause that is a FORMULA (not a pair of terms): the goal is evaluated with the true
+        functions at points of the domain (all hypotheses hold there).  Returns (holds_everywhere, info)."""
+        names, envs = self._samples([goal], hyps, pool, n)
+        ok, bad = 0, None
+        for env in envs:
+            try:
+                if hyps and not all(E.evaluate(h, env) for h in hyps):
+                    continue
+                v = E.evaluate(goal, env, dps=34, tol=mp.mpf(10) ** -20)
+            except (ZeroDivisionError, ValueError, KeyError, NotImplementedError, TypeError, OverflowError):
+                continue
+            ok += 1
+            if not v:
+                bad = {k: float(val) for k, val in env.items() if not callable(val)}
+                break
+            if ok >= n:
+                break
+        return (None if ok == 0 else bad is None), dict(n=ok, falsified_at=bad)
+
+    def term_compare(self, code, spec, hyps, pool, n=24):
+        names, envs = self._samples([code, spec], hyps, pool, n)
+        worst = mp.mpf(0)
+        where = {}
         ok = 0
         for env in envs:
-            for k in names:
-                env.setdefault(k, rng.uniform(-2, 2))
             try:
                 if hyps and not all(E.evaluate(h, env) for h in hyps):
                     continue
